@@ -19,3 +19,5 @@ CONSTANTS
  MaxSync = 99
  MaxWrites = 1000000
  MaxPrior = 99
+ MaxRd = 99
+ MaxHb = 99
